@@ -51,6 +51,10 @@ RULE = ('type-directed: a nested target (dict / list / tuple / attribute objects
         'argument followed by a read of the same container, a T object stored in the target passed as '
         '(keyword) argument or inside a list argument (must come back as that object, compared by repr). '
         'Targets are trees (no object reachable by two paths) — sharing only arises during evaluation. '
+        'Non-callable callee templates: T[f](args…) with target[f] an int / str / None / float / list / tuple / '
+        'dict / attribute object (or the target itself) x fine / failing / target-changing nested T arguments, '
+        'positional and keyword, in every order (the arguments are evaluated before the call finds out that '
+        'the value cannot be called); the same as a one-edit mutation at every position. '
         'Numbers of every type: targets carry floats (0.0, -0.0, 1.5, 1e308 …), a zero of some numeric type '
         '(0 / False / 0.0 / -0.0), a mostly negative exponent and sometimes an int beyond the range of a double; '
         'valid steps include int <op> float, float // % **, int ** negative. FAILING-ARITHMETIC STREAM (a fifth '
@@ -916,6 +920,38 @@ class Gen:
             return [['__add__', lit('%c')], ['__mod__', lit(r.choice([10 ** 9, -1]))]]
         return [['__add__', lit(None)]]
 
+    def nc_args(self):
+        """arguments for a call of a value that is not callable: fine / failing / target-changing nested
+        T arguments, positional and keyword, in every order"""
+        r = self.r
+        call0 = {'call': {'args': [], 'kwargs': []}}
+
+        def one():
+            q = r.random()
+            if q < 0.3:
+                return self.arg(lambda v: type(v) in (int, str), r.choice(INTS))
+            if q < 0.6:
+                return {'T': r.choice([[['__getitem__', lit('zz')]], [['__getattr__', lit('zz')]],
+                                       [['__getitem__', lit('n')], ['__getitem__', lit('y')]],
+                                       [['__floordiv__', lit(0)]]])}
+            ls = [st for st, v in self.src if type(v) is list]
+            ds = [st for st, v in self.src if type(v) is dict and st]
+            if ls and (not ds or r.random() < 0.7):
+                st = r.choice(ls)
+                if r.random() < 0.5:
+                    return {'T': st + [['__getattr__', lit('pop')], ['__call__', call0]]}
+                return {'T': st + [['__getattr__', lit('append')],
+                                   ['__call__', {'call': {'args': [lit(r.choice(INTS))], 'kwargs': []}}]]}
+            if ds:
+                return {'T': r.choice(ds) + [['__getattr__', lit('setdefault')],
+                                             ['__call__', {'call': {'args': [lit('new'), lit(1)], 'kwargs': []}}]]}
+            return lit(r.choice(INTS))
+        n = r.choice([1, 1, 2, 3])
+        items = [one() for _ in range(n)]
+        nkw = r.choice([0, 0, 1]) if n > 1 else r.choice([0, 0, 0, 1])
+        args, kws = items[:n - nkw], items[n - nkw:]
+        return {'call': {'args': args, 'kwargs': [[r.choice(['x', 'b', 'k%d' % i]), e] for i, e in enumerate(kws)]}}
+
     def bad_step(self, cur):
         """a step that fails on `cur` (one-edit mutation); a list of steps when a valid step in front is
         needed to reach a value on which the last one fails (see arith_fail)"""
@@ -960,6 +996,10 @@ class Gen:
         if o == 'invert':
             return ['__invert__', lit(None)]
         if o == 'call0':
+            if r.random() < 0.6 and not has_sent(enc(cur)):
+                # a non-callable value called WITH arguments: they are evaluated (may fail, may change
+                # the target) before the call finds out that the value cannot be called
+                return ['__call__', self.nc_args()]
             return ['__call__', {'call': {'args': [], 'kwargs': []}}]
         if o == 'item':
             return ['__getitem__', lit(r.choice([0, 'a']))]
@@ -1162,6 +1202,40 @@ def failing_nested_step(r, g):
     return [r.choice(['__getitem__', '__add__', '__mul__', '__sub__']), {'T': inner}]
 
 
+def has_sent(j):
+    """does the encoded value contain a glom T object (stored as data)?"""
+    if isinstance(j, dict):
+        return 'sent' in j or any(has_sent(v) for v in j.values())
+    if isinstance(j, list):
+        return any(has_sent(v) for v in j)
+    return False
+
+
+def noncallable_templates(r):
+    """T['f'](args…) where target['f'] is NOT callable (int / str / None / float / list / tuple / dict /
+    attribute object): as in Python, the arguments are evaluated first — a failing nested T argument
+    surfaces with its own position, a mutating one changes the target — and only then the call fails
+    with TypeError (which keeps its class: a failing call)"""
+    n = r.randint(2, 4)
+    f = r.choice([3, 'abc', None, 2.5, [1, 2], (1,), {'a': 1}, pyobjs.Obj(a=1), True])
+    target = {'f': f, 'l': [r.choice(INTS[:11]) for _ in range(n)], 'd': {'a': r.choice(INTS), 'b': r.choice(INTS)},
+              'n': r.choice(INTS), 'len': len}
+    g = Gen(r, target, nested_p=0.6)
+    if r.random() < 0.25:
+        callee = [['__getitem__', lit('l')], ['__getitem__', lit(0)]]
+    elif r.random() < 0.15:
+        callee = []                                   # the target itself (a dict) is called
+    else:
+        callee = [['__getitem__', lit('f')]]
+    steps = callee + [['__call__', g.nc_args()]]
+    q = r.random()
+    if q < 0.3:
+        steps.append(['__getitem__', lit(0)])          # never reached
+    elif q < 0.45:
+        steps.append(failing_nested_step(r, g))
+    return {'target': enc(target), 'expr': {'T': steps}}
+
+
 def as_steps(st):
     """bad_step returns one step [dunder, E] or a list of steps"""
     return [st] if st and isinstance(st[0], str) else list(st)
@@ -1252,6 +1326,7 @@ def generate(rng, tier, scale, **focus):
         if c is not None:
             yield c
     for i in range(n // 12):
+        yield noncallable_templates(rng)
         yield twin_templates(rng)
         if STATEFUL:
             yield stateful_templates(rng)
